@@ -35,7 +35,8 @@ def configs(tier, seed):
     for _ in range(want):
         out.append({'mask': rng.choice(['circle', 'offcentre', 'hex', 'islands']), 'n': rng.choice(sizes), 'modes': rng.choice(subsets),
                     'normalize': rng.random() < 0.5, 'coords': rng.choice(['default', 'default', 'supplied']),
-                    'weighted': rng.random() < 0.3, 'forder': rng.random() < 0.3})
+                    'weighted': rng.choice([False, False, False, False, True, True, 'signed']), 'forder': rng.random() < 0.3,
+                    'refill': rng.random() < 0.25})
     out.append({'mask': 'circle', 'n': 7, 'modes': [4], 'normalize': True, 'coords': 'default'})
     out += [{'mask': mk, 'n': 6, 'modes': [mo], 'normalize': nz, 'coords': 'default'} for mk in ('circle', 'offcentre') for mo in (1, 2, 4, 6) for nz in (True, False)]
     out.append({'mask': 'circle', 'n': 6, 'modes': [2, 3], 'normalize': True, 'coords': 'default'})
@@ -52,6 +53,8 @@ def run(W, cfg):
         # a mask whose non-zero entries are not all 1 (antialiased edge weights / integer labels): only its support may matter
         rr, cc = rnp.mgrid[0:mask.shape[0], 0:mask.shape[1]]
         mask = mask * (1 + ((rr + 2 * cc) % 3)) / 2.0
+        if cfg['weighted'] == 'signed':
+            mask = mask * (1 - 2 * ((rr + cc) % 2))          # non-zero entries of either sign: still only the support may matter
     modes = cfg['modes']
     kw = {}
     if cfg['coords'] == 'supplied':
@@ -107,6 +110,10 @@ def run(W, cfg):
             W.ob_close(f'outside the mask nothing is subtracted [{r},{cc}]', res[r, cc] * 1.0, 0.0, tol)
         refit = Z.zernike_fit(res, mask, modes, **kw)
         tol2 = 1e-9 * len(cells)
+        # least squares, characterised independently of zernike_fit: the residual is orthogonal to every removed mode over the support
+        nb = W.concrete(loaderless_basis(W, mask, modes, True, kw)).astype(float)
+        for k in range(K):
+            W.ob_close(f'residual orthogonal to removed mode {modes[k]} over the support', W.sum(res[r, cc] * float(nb[k, r, cc]) for (r, cc) in cells), 0, tol2 * 10)
         for k in range(K):
             W.ob_close(f'fit(remove(opd))[{k}] = 0', refit[k], 0, tol2)
         res2 = Z.zernike_remove(res, mask, modes, **kw)
@@ -125,6 +132,19 @@ def run(W, cfg):
         gone = Z.zernike_remove(opd, mask, modes, **kw)
         for (r, cc) in cells[:6]:
             W.ob_close(f'remove(compose(c)) = 0 [{r},{cc}]', gone[r, cc], 0, tol)
+    if cfg.get('refill') and cfg['coords'] == 'default':
+        # the same mask array refilled in place with another aperture (a different centroid and extent): nothing of the old one is remembered
+        other = _mask({'circle': 'offcentre', 'offcentre': 'circle', 'hex': 'offcentre', 'islands': 'circle'}[cfg['mask']], cfg['n'])
+        mask[...] = other.astype(mask.dtype)
+        fresh = mask.copy()
+        # (the refilled array is used first: a call on the fresh copy in between would itself displace anything remembered)
+        opd2 = Z.zernike_compose(mask, full, normalize=cfg['normalize'])
+        fit2 = Z.zernike_fit(opd2, mask, modes, normalize=cfg['normalize'])
+        B2 = W.concrete(loaderless_basis(W, fresh, modes, cfg['normalize'], {})).astype(float).reshape(K, -1)
+        if rnp.linalg.matrix_rank(B2) == K and rnp.linalg.cond(B2) < 1e8:
+            W.ob('mask array refilled in place: compose = compose on a fresh copy', opd2, Z.zernike_compose(fresh, full, normalize=cfg['normalize']))
+            for k in range(K):
+                W.ob_close(f'mask array refilled in place: fit(compose(c))[{k}] = c[{k}]', fit2[k], c[k], tol)
 
 
 def loaderless_basis(W, mask, modes, normalize, kw):
